@@ -42,6 +42,9 @@ def run_driver(work, test, outname, env=None, timeout=900, pkg="./internal/"):
         e.update(env)
     rc, o = vlib.run_test_bin(harness_bin(work, pkg), "^%s$" % test, env=e, timeout=timeout)
     if rc != 0:
+        cp = vlib.code_panic(o)
+        if cp:
+            raise vlib.CodePanic("%s (driver %s)" % (cp, test), o)
         raise vlib.MachineryError("driver %s failed rc=%s:\n%s" % (test, rc, (o or "")[-3000:]))
     return out
 
@@ -100,10 +103,13 @@ def replay_file(pid, path, work):
     mode = ""
     try:
         with open(path) as fh:
-            mode = json.loads(fh.readline()).get("mode", "")
+            first = json.loads(fh.readline())
+            mode = "persist" if first.get("ev") == "saved" else first.get("mode", "")
     except Exception:
         pass
-    if mode == "hybrid":
+    if mode == "persist":
+        res = validate(work, os.path.abspath(path), "replay", module="PersistTrace", cfg="PersistTrace.cfg")
+    elif mode == "hybrid":
         res = validate(work, os.path.abspath(path), "replay", module="HybridTrace", cfg="HybridTrace.cfg")
     else:
         res = validate(work, os.path.abspath(path), "replay")
